@@ -273,7 +273,7 @@ eff_harness! { #[kani::unwind(7)] fn g_effects_client_tasks() { g_effects([E_TAS
 
 /// KNOWN FINDING witness: dispatch(a) accepted, then stop() BEFORE the loop reached a's
 /// effect phase: stop() takes the pool, dispatch_task finds None and drops the effect.
-fn effects_after_pool_taken(kind: u8) {
+fn effects_after_pool_taken(kind: u8, witness: bool) {
     let (store, _acts) = eff_setup([kind, E_NONE], 1, 4);
     store.stop();
     unsafe {
@@ -283,14 +283,24 @@ fn effects_after_pool_taken(kind: u8) {
     rt::run_pending(4);
     let e = eff_id(0, 0);
     chk!(11, unsafe { PH[0][PH_EFFECT].n } == 1, "the effect phase of the accepted action ran");
-    chk!(11, unsafe { EFF_RUN[e] } == 1, "KNOWN-FINDING pattern: effect of an action accepted before stop() is executed once although its effect phase ran after stop() took the pool");
+    if witness {
+        chk!(11, unsafe { EFF_RUN[e] } == 1, "KNOWN-FINDING pattern: effect of an action accepted before stop() is executed once although its effect phase ran after stop() took the pool");
+    } else {
+        // whatever happens to that effect, it must not run in the reducer context, at most once
+        chk!(11, unsafe { EFF_RUN[e] } <= 1, "an effect is never executed twice");
+        chk!(11, unsafe { EFF_RUN[e] } == 0 || unsafe { EFF_CTX[e] } == rt::CTX_POOL, "an effect never runs in the reducer context, not even when the pool is already gone");
+        chk!(11, unsafe { PH[0][PH_REDUCE].n } == 1 && unsafe { PH[0][PH_NOTIFY].n } == (unsafe { SUM_NEED[0] } as u8), "the action itself is still completely processed");
+    }
     unsafe {
         core::ptr::write(&mut G_STORE, None);
     }
     core::mem::forget(store);
     finish!(11);
 }
-eff_harness! { #[kani::unwind(7)] fn g_effects_backlog_at_stop_witness() { effects_after_pool_taken(E_TASK); } }
+eff_harness! { #[kani::unwind(7)] fn g_effects_backlog_at_stop_witness() { effects_after_pool_taken(E_TASK, true); } }
+
+eff_harness! { #[kani::unwind(7)] fn g_effects_backlog_at_stop_ctx_task() { effects_after_pool_taken(E_TASK, false); } }
+eff_harness! { #[kani::unwind(7)] fn g_effects_backlog_at_stop_ctx_thunk() { effects_after_pool_taken(E_THUNK, false); } }
 
 /// vacuity twin
 eff_harness! { #[kani::unwind(7)] fn twin_g_effects() {
@@ -336,6 +346,16 @@ fn g_effects_s2(kinds: [u8; 2], k: usize) {
     // the loop task + one pool task per effect
     chk!(11, submitted == 1 + n_eff, "one pool submission per effect");
     chk!(11, rusty_pool::ghost::next_pending().is_none(), "when stop() has returned no submitted work is left");
+    // a task handed over after stop() is neither queued nor run
+    let tasks0 = rusty_pool::ghost::tasks();
+    if let Some(Effect::Task(t)) = make_effect(E_TASK, MAXE - 3, 0) {
+        Dispatcher::dispatch_task(&store, t);
+    }
+    if let Some(Effect::Thunk(t)) = make_effect(E_THUNK, MAXE - 4, 0) {
+        Dispatcher::dispatch_thunk(&store, t);
+    }
+    rt::run_pending(2);
+    chk!(11, rusty_pool::ghost::tasks() == tasks0 && unsafe { EFF_RUN[MAXE - 3] } == 0 && unsafe { EFF_RUN[MAXE - 4] } == 0 && rt::now() == end, "after stop() has returned nothing further runs");
     chk!(18, store.metrics.effect_issued.load(std::sync::atomic::Ordering::SeqCst) == n_eff, "effects issued = effects the reducers returned");
     unsafe {
         core::ptr::write(&mut G_STORE, None);
